@@ -383,6 +383,8 @@ theorem stepLive_inv (env : Containers.Env) {s s' : LSession} {op : Op} (hinv : 
         omega
       · exact hinv.refs doc (List.mem_of_getElem? hdoc) r (hr r hr')
     · rename_i hne
+      split at h
+      · simp at h
       simp only [Option.bind_eq_some_iff] at h
       obtain ⟨D, hD, S, hS, ⟨D', S', fr⟩, hm, v, hv, h⟩ := h
       split at h
@@ -443,6 +445,8 @@ theorem stepLive_inv (env : Containers.Env) {s s' : LSession} {op : Op} (hinv : 
         omega
       · exact hinv.refs doc (List.mem_of_getElem? hdoc) r (hr r hr')
     · rename_i hne
+      split at h
+      · simp at h
       simp only [Option.bind_eq_some_iff] at h
       obtain ⟨D, hD, S, hS, ⟨D', S', x, y⟩, hm, h⟩ := h
       split at h
@@ -525,5 +529,142 @@ theorem run_inv (env : Containers.Env) : ∀ (ops : List Op) (s : LSession), Led
     cases hst : lstep env s op with
     | none => exact run_inv env ops s h
     | some s' => exact run_inv env ops s' (step_inv env h hst)
+
+theorem lrun_append (env : Containers.Env) : ∀ (ops₁ ops₂ : List Op) (s : LSession),
+    lrun env s (ops₁ ++ ops₂) = lrun env (lrun env s ops₁) ops₂
+  | [], _, _ => rfl
+  | op :: ops, ops₂, s => by
+    simp only [List.cons_append, lrun]
+    cases lstep env s op with
+    | none => exact lrun_append env ops ops₂ s
+    | some s' => exact lrun_append env ops ops₂ s'
+
+/-- outside a case (before the first `dom-reset`, after `dom-end`) there are only the four fresh documents -/
+def Closed (s : LSession) : Prop := s.live = false → s.docs = freshDocs
+
+theorem step_closed (env : Containers.Env) {s s' : LSession} {op : Op} (h : lstep env s op = some s') : Closed s' := by
+  cases op with
+  | reset a =>
+    simp only [lstep] at h
+    split at h
+    · simp at h
+    · simp only [Option.some.injEq] at h
+      subst h
+      intro hl; simp at hl
+  | fin =>
+    simp only [lstep] at h
+    split at h
+    · simp only [lstepLive, Option.some.injEq] at h
+      subst h
+      intro _; rfl
+    · simp at h
+  | parse d t =>
+    simp only [lstep] at h
+    split at h
+    · rename_i hl
+      simp only [lstepLive, Option.map_eq_some_iff] at h
+      obtain ⟨doc, _, rfl⟩ := h
+      intro hl'
+      split at hl' <;> simp [hl] at hl'
+    · simp at h
+  | node d p nop =>
+    simp only [lstep] at h
+    split at h
+    · rename_i hl
+      simp only [lstepLive, Option.bind_eq_some_iff, Option.map_eq_some_iff] at h
+      obtain ⟨_, _, _, _, rfl⟩ := h
+      intro hl'; simp [hl] at hl'
+    · simp at h
+  | move d p d2 p2 =>
+    simp only [lstep] at h
+    split at h
+    · rename_i hl
+      simp only [lstepLive] at h
+      intro hl'
+      split at h
+      · simp only [Option.bind_eq_some_iff, Option.map_eq_some_iff] at h
+        obtain ⟨_, _, _, _, rfl⟩ := h
+        simp [hl] at hl'
+      · split at h
+        · simp at h
+        · simp only [Option.bind_eq_some_iff] at h
+          obtain ⟨_, _, _, _, _, _, _, _, h⟩ := h
+          split at h
+          · simp only [Option.some.injEq] at h
+            subst h
+            simp [hl] at hl'
+          · simp at h
+    · simp at h
+  | copy d p d2 p2 cs =>
+    simp only [lstep] at h
+    split at h
+    · rename_i hl
+      simp only [lstepLive] at h
+      intro hl'
+      split at h
+      · simp only [Option.bind_eq_some_iff, Option.map_eq_some_iff] at h
+        obtain ⟨_, _, _, _, rfl⟩ := h
+        simp [hl] at hl'
+      · simp only [Option.bind_eq_some_iff, Option.map_eq_some_iff] at h
+        obtain ⟨_, _, _, _, _, _, rfl⟩ := h
+        simp [hl] at hl'
+    · simp at h
+  | swap d p d2 p2 =>
+    simp only [lstep] at h
+    split at h
+    · rename_i hl
+      simp only [lstepLive] at h
+      intro hl'
+      split at h
+      · simp only [Option.bind_eq_some_iff, Option.map_eq_some_iff] at h
+        obtain ⟨_, _, _, _, rfl⟩ := h
+        simp [hl] at hl'
+      · split at h
+        · simp at h
+        · simp only [Option.bind_eq_some_iff] at h
+          obtain ⟨_, _, _, _, _, _, h⟩ := h
+          split at h
+          · simp only [Option.some.injEq] at h
+            subst h
+            simp [hl] at hl'
+          · simp at h
+    · simp at h
+  | docMove d d2 =>
+    simp only [lstep] at h
+    split at h
+    · rename_i hl
+      simp only [lstepLive] at h
+      intro hl'
+      split at h
+      · simp at h
+      · simp only [Option.bind_eq_some_iff, Option.map_eq_some_iff] at h
+        obtain ⟨_, _, _, _, rfl⟩ := h
+        simp [hl] at hl'
+    · simp at h
+  | docSwap d d2 =>
+    simp only [lstep] at h
+    split at h
+    · rename_i hl
+      simp only [lstepLive, Option.bind_eq_some_iff, Option.map_eq_some_iff] at h
+      obtain ⟨_, _, _, _, rfl⟩ := h
+      intro hl'; simp [hl] at hl'
+    · simp at h
+
+theorem run_closed (env : Containers.Env) : ∀ (ops : List Op) (s : LSession), Closed s → Closed (lrun env s ops)
+  | [], _, h => h
+  | op :: ops, s, h => by
+    simp only [lrun]
+    cases hst : lstep env s op with
+    | none => exact run_closed env ops s h
+    | some s' => exact run_closed env ops s' (step_closed env hst)
+
+theorem live_nil_of_no_blocks {s : LSession} (h : LedgerInv s) (hb : docsBlocks s.docs = []) : s.ledger.live = [] := by
+  apply List.eq_nil_iff_forall_not_mem.2
+  intro a ha
+  have := h.ok.bal a
+  rw [hb] at this
+  have hpos := List.count_pos_iff.2 ha
+  simp at this
+  omega
 
 end Sonic.Proofs.Ledger
